@@ -153,6 +153,7 @@ type runner struct {
 	started  *atomic.Int64 // unix nanos of the call in flight, 0 when idle
 	skip     map[string]bool
 	called   map[string]bool
+	got      string // rendering of the decoded value of the call in flight (families with a value law)
 }
 
 func entryIndex(sh *Shape, entry string) int {
@@ -195,7 +196,7 @@ func panicSite(stack []byte) string {
 }
 
 func (r *runner) record(ei int, outcome, msg string) {
-	line := strconv.Itoa(r.idx) + "\t" + strconv.Itoa(ei) + "\t" + outcome + "\t" + firstLine(msg, 300) + "\n"
+	line := strconv.Itoa(r.idx) + "\t" + strconv.Itoa(ei) + "\t" + outcome + "\t" + firstLine(r.got, 80) + "\t" + firstLine(msg, 300) + "\n"
 	r.outMu.Lock()
 	_, _ = r.out.WriteString(line)
 	r.outMu.Unlock()
@@ -217,6 +218,7 @@ func (r *runner) call(entry string, f func() error) {
 		return
 	}
 	r.fl.set(r.idx, ei)
+	r.got = ""
 	r.started.Store(time.Now().UnixNano())
 	outcome, msg := outOK, ""
 	func() {
@@ -314,7 +316,7 @@ func childMain() int {
 			if st != 0 && time.Since(time.Unix(0, st)) > d {
 				idx, ei := fl.get()
 				outMu.Lock()
-				_, _ = out.WriteString(strconv.Itoa(idx) + "\t" + strconv.Itoa(ei) + "\t" + outSuspect + "\tno return within " + d.String() + "\n")
+				_, _ = out.WriteString(strconv.Itoa(idx) + "\t" + strconv.Itoa(ei) + "\t" + outSuspect + "\t\tno return within " + d.String() + "\n")
 				os.Exit(3)
 			}
 		}
